@@ -722,6 +722,8 @@ fn gen_seq(rng: &mut Rng, n_ops: usize, flavour: &str) -> (String, Vec<String>) 
 #[derive(Clone)]
 struct TableSim {
     name: String,
+    /// rows deleted since the last VACUUM (their cells are still in the leaf)
+    dead: usize,
     /// (id, updates since the last VACUUM)
     rows: Vec<(u64, u32)>,
     next_id: u64,
@@ -750,6 +752,9 @@ struct Plan {
     ddl: bool,
     reopen: bool,
     churn: bool,
+    /// at most this many cells (live + dead rows) per table: with 2, a table never leaves its root page, so large rows get
+    /// overflow chains but no divider ever exists (family `ovf`)
+    max_cells: Option<usize>,
 }
 
 fn plan_for(region: &'static str, family: &'static str) -> Plan {
@@ -767,9 +772,19 @@ fn plan_for(region: &'static str, family: &'static str) -> Plan {
         ddl: false,
         reopen: false,
         churn: false,
+        max_cells: None,
     };
     match family {
         "plain" => {}
+        "ovf" => {
+            p.big_rows = true;
+            p.max_cells = Some(2);
+            p.max_indexes = 0; // an index keeps entries of dead rows and would split
+            p.vacuum_every = Some(3);
+            p.burst = 2;
+            p.ddl = true;
+            p.reopen = true;
+        }
         "rollback" => {
             p.sessions = true;
             p.rollback_num = 3;
@@ -851,7 +866,7 @@ fn gen_sql(rng: &mut Rng, n_ops: usize, plan: &Plan) -> (String, Vec<String>) {
         }
     }
     tcount += 1;
-    tables.push(TableSim { name: format!("t{}", tcount), rows: Vec::new(), next_id: 1, indexes: Vec::new() });
+    tables.push(TableSim { name: format!("t{}", tcount), dead: 0, rows: Vec::new(), next_id: 1, indexes: Vec::new() });
     ops.push(QOp::Auto(Stmt::CreateTable(format!("t{}", tcount))));
     while ops.len() < n_ops {
         // VACUUM keeps the catalog rows (one version per INSERT) and the updated rows small
@@ -861,6 +876,7 @@ fn gen_sql(rng: &mut Rng, n_ops: usize, plan: &Plan) -> (String, Vec<String>) {
                 tag("vacuum", &mut tags);
                 since_vac = 0;
                 for t in tables.iter_mut() {
+                    t.dead = 0;
                     for r in t.rows.iter_mut() {
                         r.1 = 0;
                     }
@@ -895,7 +911,7 @@ fn gen_sql(rng: &mut Rng, n_ops: usize, plan: &Plan) -> (String, Vec<String>) {
         if tables.is_empty() || (ddl_ok && (18..22).contains(&roll) && tables.len() < plan.max_tables) {
             tcount += 1;
             let name = format!("t{}", tcount);
-            tables.push(TableSim { name: name.clone(), rows: Vec::new(), next_id: 1, indexes: Vec::new() });
+            tables.push(TableSim { name: name.clone(), dead: 0, rows: Vec::new(), next_id: 1, indexes: Vec::new() });
             if open.is_some() {
                 tag("ddl-in-session", &mut tags);
             }
@@ -950,9 +966,19 @@ fn gen_sql(rng: &mut Rng, n_ops: usize, plan: &Plan) -> (String, Vec<String>) {
         // row operations
         let t = &mut tables[ti];
         let d = rng.below(100);
-        let want_delete = plan.churn && t.rows.len() > 40;
+        let full = plan.max_cells.map(|m| t.rows.len() + t.dead >= m).unwrap_or(false);
+        if full && t.rows.is_empty() {
+            // only dead cells left: VACUUM makes room
+            if open.is_none() {
+                since_vac = usize::MAX / 2;
+            }
+            continue;
+        }
+        let want_delete = (plan.churn && t.rows.len() > 40) || (full && d < 50);
+        let d = if full && d < 55 { 60 } else { d };
         if t.rows.is_empty() || (d < 55 && !want_delete) {
-            let burst = if rng.chance(1, 3) { rng.range(2, plan.burst as i64) as usize } else { 1 };
+            let room = plan.max_cells.map(|m| m - (t.rows.len() + t.dead)).unwrap_or(usize::MAX);
+            let burst = if rng.chance(1, 3) { rng.range(2, plan.burst as i64) as usize } else { 1 }.min(room);
             for _ in 0..burst {
                 let id = t.next_id;
                 t.next_id += 1;
@@ -982,13 +1008,16 @@ fn gen_sql(rng: &mut Rng, n_ops: usize, plan: &Plan) -> (String, Vec<String>) {
         } else if d < 90 && !want_delete {
             let i = rng.below(t.rows.len() as u64) as usize;
             let id = t.rows.swap_remove(i).0;
+            t.dead += 1;
             since_vac += 1;
             push(&mut ops, &mut open, Stmt::Delete(t.name.clone(), id));
             tag("delete", &mut tags);
         } else {
             let lo = rng.pick(&t.rows).0;
             let hi = lo + if want_delete { rng.range(20, 60) } else { rng.range(2, 12) } as u64;
+            let before = t.rows.len();
             t.rows.retain(|x| x.0 < lo || x.0 >= hi);
+            t.dead += before - t.rows.len();
             since_vac += 2;
             push(&mut ops, &mut open, Stmt::DeleteRange(t.name.clone(), lo, hi));
             tag("delete-range", &mut tags);
@@ -1042,7 +1071,7 @@ impl Engine for PagerEngine {
             out.push(Case::new(line, &t));
         }
         let mut r2 = rng.fork("sql");
-        let families = ["plain", "rollback", "ddl", "reopen", "churn", "mixed"];
+        let families = ["plain", "rollback", "ddl", "reopen", "churn", "mixed", "ovf"];
         for i in 0..n_sql {
             // region split: 8 of every 11 histories are clean, then bigcell, bigcat, ddlrb (one region feature each)
             let region = match i % 11 {
@@ -1051,7 +1080,11 @@ impl Engine for PagerEngine {
                 9 => "bigcat",
                 _ => "ddlrb",
             };
-            let family = families[(i / 11 + i % 11) % families.len()];
+            // family `ovf` (large rows in tables that never split) exists only in the clean region
+            let mut family = families[(i / 11 + i % 11) % families.len()];
+            if family == "ovf" && region != "clean" {
+                family = "mixed";
+            }
             let plan = plan_for(region, family);
             let n_ops = match i % 3 {
                 0 => r2.range(40, 120),
